@@ -255,6 +255,49 @@ def node_record(w, i):
             "entropy": hashlib.sha256(repr([(c[0], c[1]) for c in n.entropy.calls]).encode()).hexdigest()[:12]}
 
 
+def _digest_value(v, depth=0):
+    """stable description of an attribute value of a shared object"""
+    if isinstance(v, (int, str, bytes, bool, type(None), float)):
+        return repr(v)
+    if depth > 3:
+        return "<" + type(v).__name__ + ">"
+    if isinstance(v, (tuple, list)):
+        return type(v).__name__ + "[" + ",".join(_digest_value(x, depth + 1) for x in v) + "]"
+    if isinstance(v, dict):
+        try:
+            items = sorted(v.items(), key=lambda kv: repr(kv[0]))
+        except Exception:
+            items = list(v.items())
+        return "dict{" + ",".join(repr(k) + ":" + _digest_value(x, depth + 1) for k, x in items) + "}"
+    if isinstance(v, (set, frozenset)):
+        return "set{" + ",".join(sorted(_digest_value(x, depth + 1) for x in v)) + "}"
+    tb = getattr(v, "to_bytes", None)
+    if callable(tb) and not isinstance(v, int):
+        try:
+            return type(v).__name__ + ":" + tb().hex()
+        except Exception:
+            return "<" + type(v).__name__ + ">"
+    return "<" + type(v).__name__ + ">"
+
+
+def attr_snapshot(obj):
+    d = getattr(obj, "__dict__", None)
+    if d is None:
+        return []
+    return sorted((k, _digest_value(v)) for k, v in d.items())
+
+
+def module_snapshot(mod):
+    """module-level data (not functions / classes / modules) of a library module"""
+    import types
+    out = []
+    for k, v in sorted(mod.__dict__.items()):
+        if k.startswith("__") or isinstance(v, (types.FunctionType, types.ModuleType, type, types.BuiltinFunctionType)):
+            continue
+        out.append((k, _digest_value(v)))
+    return out
+
+
 def shared_snapshot(config):
     """encodings and constants of every shared object the world's sessions use"""
     lib = loader.load()
@@ -274,8 +317,17 @@ def shared_snapshot(config):
                 row.append(repr(getattr(mod, attr, None)))
             row.append(repr(getattr(mod.Base, "XYTZ", None)))
             row.append(repr(getattr(mod.Zero, "XYTZ", None)))
-        # attributes that appeared on the shared objects (memo caches etc.) are reported, not judged
+        # every attribute of the shared parameter-set and group objects (new memo attributes included)
+        row.append(repr(attr_snapshot(P)))
+        row.append(repr(attr_snapshot(G)))
         out.append(row)
+        if getattr(G, "_toy_module", None) is not None:
+            out.append(["module:toy:%s" % (ps["group"],), repr(module_snapshot(G._toy_module))])
+    # module-level data of the library modules (tables, memos, status flags live here)
+    for name, mod in sorted(lib.modules.items()):
+        if ".test" in name:
+            continue
+        out.append(["module:" + name, repr(module_snapshot(mod))])
     return out
 
 
@@ -432,8 +484,14 @@ def execute(scn):
     R.events.append({"i": len(R.events), "op": "schedB", "n": None, "out": "done", "d": res["digB"]})
     if res["before"] != res["after"]:
         diffs = [pi for pi, (b, a) in enumerate(zip(res["before"], res["after"])) if a != b]
-        R.flag("shared-object-modified", "running sessions changed a shared group / parameter object (parameter set(s) %s)"
-               % diffs, mode=mode)
+        objs = [pi for pi in diffs if not (res["before"][pi] and str(res["before"][pi][0]).startswith("module:"))]
+        if objs:
+            R.flag("shared-object-modified", "running sessions changed a shared group / parameter-set object "
+                   "(parameter set(s) %s: encodings, constants or attributes differ before/after)" % objs, mode=mode)
+        if len(objs) != len(diffs):
+            # module-level data changed (a memo, a table): not what the property forbids by itself;
+            # counted so that a reader of the evidence sees it
+            R.probe("module-level-data-changed")
     for i in range(nn):
         a, b = res["A"][i], res["B"][i]
         iso = in_child(isolated_job(scn, i, a["wires"]))
